@@ -417,7 +417,7 @@ def stub_family(ck, np, Reweighter, StateManager, cov):
             exp = binding.expected(st, F)
             bad = binding.compare(obs, exp)
             cov["evaluations"] += len(obs["qlog"])
-            if bad and not obs["qlog"] and not obs["raised"]:
+            if bad and not obs["qlog"]:
                 # the code never asked the stubbed metric: it is organised differently from the specification; this family cannot
                 # drive it (the real-history family and the recorded runs below do not depend on it)
                 cov["stub_binding_lost"] += 1
@@ -428,7 +428,7 @@ def stub_family(ck, np, Reweighter, StateManager, cov):
                 # an alternative search no defined ESS-limited temperature: no verdict.
                 if monotone_memo(st["essM"]) and not any(c == "nan" for _, c in st["essM"]):
                     obs2 = binding.observe(st, F, extended=True)
-                    if not obs2["qlog"] and not obs2["raised"]:
+                    if not obs2["qlog"]:
                         cov["stub_binding_lost"] += 1
                         bad = None
                     else:
